@@ -6,7 +6,8 @@ from . import common as C
 
 FORMULAS = {
     "C03": ["Reassembly", "OthersIntact", "RejectInvalid", "Undelivered"],
-    "C07": ["PathAuthoritative"],
+    # (RejectInvalid in C07's cases: a path text that cannot be the field's value must not make way for the competing one)
+    "C07": ["PathAuthoritative", "RejectInvalid"],
     "C04": ["AcceptAdmits", "ResponseDecodable", "HttpBodyRaw", "ResponseBodySelects", "EncodingTruthful"],
 }
 
@@ -58,6 +59,14 @@ def req_cases(prop, abstract, rnd, tier):
             c.update(codec="json", gzip=False, spell=rnd.choice(["json", "proto"]), invalid="", table=rnd.random() < 0.5, stream=False, fam="tc",
                      zeropath=False, framing="", compsub=rnd.random() < 0.3, ws=True)
             out.append(c)
+        if prop == "C07":
+            # the path text is not valid for the field (an unknown enum name, a numeral out of range, ...): the request is
+            # refused - the capture is not dropped in favour of the competing value
+            for k in range(2):
+                c = dict(a)
+                c.update(codec=rnd.choice(["json", "proto"]), gzip=False, spell=rnd.choice(["json", "proto"]), invalid="p1", table=True, stream=False, fam="tc",
+                         zeropath=False, framing="", compsub=False, ws=False, accept="", manyq=False, sibling=False, rev=False)
+                out.append(c)
         if prop == "C03":
             # one invalid text per shape, in a path-bound or query-carried scalar
             cands = ["p1"] + (["p2"] if a["npath"] == 2 else [])
